@@ -40,6 +40,10 @@ type Billet struct {
 
 	root Node
 	mode TrieMode
+	// keepExpanded makes traversal leave the visited nodes as they are instead of
+	// collapsing them. Nodes that do not belong to the Billet (and may be not
+	// stored yet, see (*Trie).Find) must not be replaced by their hashes.
+	keepExpanded bool
 }
 
 // NewBillet returns a new billet for MPT trie restoring. It accepts a MemCachedStore
@@ -333,6 +337,9 @@ func (b *Billet) traverse(curr Node, path, from []byte, process func(pathToNode 
 }
 
 func (b *Billet) tryCollapseLeaf(curr *LeafNode) Node {
+	if b.keepExpanded {
+		return curr
+	}
 	// Leaf can always be collapsed.
 	res := NewHashNode(curr.Hash())
 	res.Collapsed = true
@@ -340,6 +347,9 @@ func (b *Billet) tryCollapseLeaf(curr *LeafNode) Node {
 }
 
 func (b *Billet) tryCollapseExtension(curr *ExtensionNode) Node {
+	if b.keepExpanded {
+		return curr
+	}
 	if curr.next.Type() != HashT || !curr.next.(*HashNode).Collapsed {
 		return curr
 	}
@@ -349,6 +359,9 @@ func (b *Billet) tryCollapseExtension(curr *ExtensionNode) Node {
 }
 
 func (b *Billet) tryCollapseBranch(curr *BranchNode) Node {
+	if b.keepExpanded {
+		return curr
+	}
 	canCollapse := true
 	for i := range childrenCount {
 		if curr.Children[i].Type() == EmptyT {
